@@ -36,8 +36,10 @@ MODES = (True, False, None)
 def bounds(tier):
     if tier == "quick":
         return dict(species=len(VEC_Q), sides=[(1, 1), (1, 2), (2, 1), (2, 2), (1, 3), (3, 1)], dup_sides=[(2, 2)], formulas=len(FORMULAS), formula_sides=[(1, 1), (1, 2), (2, 1), (2, 2)])
-    return dict(species=len(VEC_T), sides=[(1, 1), (1, 2), (2, 1), (2, 2), (1, 3), (3, 1), (2, 3), (3, 2)], sides_on_the_12_species_alphabet=[(3, 3)],
-                dup_sides=[(2, 2), (2, 3), (3, 2)], formulas=len(FORMULAS),
+    # (the 20-species alphabet with fractional and larger counts is explored up to 4 species per reaction; the deepest side
+    # bounds run on the 12-species alphabet, where coefficient sums stay small enough for the exhaustive minimality search)
+    return dict(species=len(VEC_T), sides=[(1, 1), (1, 2), (2, 1), (2, 2), (1, 3), (3, 1)], sides_on_the_12_species_alphabet=[(2, 3), (3, 2), (3, 3)],
+                dup_sides=[(2, 2)], dup_sides_on_the_12_species_alphabet=[(2, 3), (3, 2)], formulas=len(FORMULAS),
                 formula_sides=[(1, 1), (1, 2), (2, 1), (2, 2), (2, 3), (3, 2)])
 
 
@@ -58,6 +60,9 @@ def chunks(tier):
     for nr, np_ in b["dup_sides"]:
         for first in range(n):
             out.append(("D", nr, np_, first))
+    for nr, np_ in b.get("dup_sides_on_the_12_species_alphabet", []):
+        for first in range(len(VEC_Q)):
+            out.append(("DW", nr, np_, first))
     for nr, np_ in b["formula_sides"]:
         for first in range(len(FORMULAS)):
             out.append(("F", nr, np_, first))
@@ -379,6 +384,8 @@ def run_chunk(chunk, tier):
         return res
     if kind == "W":  # the deepest side bound, on the small alphabet
         kind, tier = "V", "quick"
+    if kind == "DW":
+        kind, tier = "D", "quick"
     n = len(FORMULAS) if kind == "F" else len(_vec(tier))
     idx = list(range(n))
     if kind in ("V", "F"):
